@@ -647,8 +647,9 @@ class _Ambient:
             self.handler = logging.NullHandler()
             for n_ in dict.fromkeys(names):
                 lg = logging.getLogger(n_)
-                self.saved.append((lg, lg.level, lg.propagate))
+                self.saved.append((lg, lg.level, lg.propagate, lg.handlers[:]))
                 lg.setLevel(logging.DEBUG)
+                lg.handlers = []                    # the records are produced (that is the point) but not printed
             top = logging.getLogger('xfab')
             top.addHandler(self.handler)
             top.propagate = False
@@ -661,9 +662,10 @@ class _Ambient:
     def __exit__(self, *exc):
         import logging
         if self.what == 'logging-debug':
-            for lg, lvl, prop in self.saved:
+            for lg, lvl, prop, hs in self.saved:
                 lg.setLevel(lvl)
                 lg.propagate = prop
+                lg.handlers = hs
             logging.getLogger('xfab').removeHandler(self.handler)
         elif self.what == 'checks-off':
             import xfab
